@@ -465,6 +465,16 @@ def check_received(ctx, fname, sent_args, sent_kwargs, args, kwargs):
         ctx.issue('received_args_alias', fname=fname)
 
 
+def unrepresentable(p):
+    if '\0' in p:
+        return True
+    try:
+        os.fsencode(p)
+        return False
+    except UnicodeEncodeError:
+        return True
+
+
 def call_bf(ctx, fr, s):
     _, r, fname, o = s
     fdef = ctx.program['funcs'][fname]
@@ -517,6 +527,10 @@ def call_bf(ctx, fr, s):
             peek_after_bf(ctx, target_abs, False, e)
         if not o.get('catch') or isinstance(e, Crash):
             raise
+        if unrepresentable(target_abs) and not isinstance(e, UserBoom):
+            # a path the OS layer cannot even represent (NUL, lone surrogate): the call fails, with
+            # ValueError / UnicodeEncodeError from whichever os function meets it first - unspecified
+            return ['exc', 'ANY']
         if len(os.fsencode(os.path.basename(target_abs))) > 255 and not isinstance(e, UserBoom):
             # a target whose own name is too long for the file system: the call fails, but
             # with which class (the OS error or "did not create the file") is not specified
